@@ -52,7 +52,7 @@ theorem goAwayGracefully_step {X : String → Prop} {c : Conn} (hc : ConnOK c) :
       rw [hpp, hp]
       simp
     rw [heq]
-    refine ⟨⟨d.ga.congr rfl rfl, ?_, (d.rd hc.rd).keep rfl (.of_eq rfl)⟩, d.hist⟩
+    refine ⟨⟨d.ga.congr rfl rfl, ?_, (d.rd hc.rd).keep rfl (.of_eq rfl rfl)⟩, d.hist⟩
     intro p hp'
     have : p = { payload := Generated.Consts.PING_SHUTDOWN_PAYLOAD, sent := false } := by
       have h' : some ({ payload := Generated.Consts.PING_SHUTDOWN_PAYLOAD, sent := false } : PendingPing) = some p := hp'
@@ -78,10 +78,10 @@ theorem goAwayFromUser_cs {X : String → Prop} {c : Conn} (hi : GoAwayInv c) (e
 -- ===================================================================== windows
 
 /-- `Connection::set_target_window_size` -/
-theorem setTargetWindowSize_cs {X : String → Prop} {c : Conn} (hi : GoAwayInv c) (size : Nat) :
+theorem setTargetWindowSize_cs {X : String → Prop} {c : Conn} (hi : GoAwayInv c) (size : Nat) (hs : size ≤ 2147483647) :
     CS X c (c.setTargetWindowSize size) :=
   .viewKeep hi rfl (ConnCtlP.view_setTargetConnectionWindow' c.streams size) rfl rfl rfl
-    (.op1 (.setTargetConnectionWindow size) trivial rfl rfl rfl)
+    (.op1 (.setTargetConnectionWindow size) hs rfl rfl rfl)
 
 /-- `Connection::set_initial_window_size` = `Settings::send_settings([INITIAL_WINDOW_SIZE = size])`: `streams` untouched -/
 theorem setInitialWindowSize_cs {X : String → Prop} {c : Conn} (hi : GoAwayInv c) (size : Nat) :
@@ -90,7 +90,7 @@ theorem setInitialWindowSize_cs {X : String → Prop} {c : Conn} (hi : GoAwayInv
   cases hl : c.settings.loc with
   | synced =>
     have k := (Keep15.of_view (c := c) (c' := { c with settings := { c.settings with loc := .toSend [(4, size)] } }) rfl rfl).step hi
-    refine ⟨⟨k.1, k.2, fun p hp => ⟨p, hp, rfl⟩, fun hn => ⟨hn.max, hn.need, ?_⟩⟩, .refl⟩
+    refine ⟨⟨k.1, k.2, fun p hp => ⟨p, hp, rfl⟩, fun hn => ⟨hn.max, hn.need, ?_, hn.rem⟩⟩, .refl⟩
     intro v m hv hm
     have : v = [(4, size)] := by
       rcases hv with hv | hv
